@@ -3,5 +3,5 @@ Require Import ExtrOcamlBasic.
 From Zix Require Import SemErrnoModel SemModel SemSpec.
 Separate Extraction SemErrnoModel.errno_status SemErrnoModel.status_code
   SemModel.wait_model SemModel.try_wait_model SemModel.timed_wait_model SemModel.post_model
-  SemModel.step SemModel.run SemModel.init_sys SemModel.takes
+  SemModel.kernel_call SemModel.wrapper SemModel.step SemModel.run SemModel.init_sys SemModel.takes
   SemSpec.spec_step SemSpec.spec_run SemSpec.spec_init.
